@@ -95,7 +95,14 @@ def run_history(W, rec, hist):
     w = W()
     m = RefWriter()
     accepted = 0
+    decoy = W()  # a second writer driven in between: instance state must not be shared
     for i, op in enumerate(hist):
+        try:
+            decoy.string_sanitization_mode = (i % 2 == 0)
+            decoy.add_fixed_string("\xff~x", 5, True)
+            decoy.add_int(-1 if i % 4 == 0 else 253 ** 4)
+        except ValueError:
+            pass
         if op[0] == "mode":
             w.string_sanitization_mode = op[1]
             m.sanitize = op[1]
